@@ -422,7 +422,6 @@ func (g *Gen) transCall(x *Expr, env *Env) TV {
 		if a.S != SSlc {
 			panic(specErr(x, "str() needs a byte slice"))
 		}
-		g.declare("str.of", "((Array Int Int) Int Int) Str")
 		ah := g.arrHeap(types.Typ[types.Uint8])
 		return TV{"(str.of (select " + env.heap(ah) + " (sl_arr " + a.T + ")) (sl_off " + a.T + ") (sl_len " + a.T + "))", SStr, types.Typ[types.String]}
 	case "unboxstr":
@@ -472,6 +471,10 @@ func (g *Gen) transCall(x *Expr, env *Env) TV {
 			panic(specErr(x, "arrof needs a slice"))
 		}
 		return TV{"(sl_arr " + a.T + ")", SInt, nil}
+	case "bitxor":
+		// bitxor(x, y): the ^ of the code (uninterpreted bit.xor of the prelude)
+		a, b := g.trans(x.Args[0], env), g.trans(x.Args[1], env)
+		return TV{"(bit.xor " + a.T + " " + b.T + ")", SInt, types.Typ[types.Int]}
 	case "kept":
 		// kept("A.string"): every object that was allocated on entry has the same content in this heap
 		if env.old == nil {
